@@ -46,6 +46,10 @@ def lay(a, l):
         return a[None, :].copy()
     if l == 'three_d':
         return (np.zeros((len(a), 2, 3)) + a[:, None, None]).copy()
+    if l == 'strided':
+        buf = np.full(2 * len(a), -7, dtype=a.dtype)
+        buf[::2] = a
+        return buf[::2]
     raise ValueError(l)
 
 
